@@ -851,6 +851,32 @@ def rule_d11b(toks, log):
     return out
 
 
+def rule_d11c(toks, log):
+    """`& P OP X` (no parentheses) as a complete expression, P a plain place path `id ( . id | . int )*`, X ONE identifier or
+    literal, preceded by `=`, `(`, `{`, `}`, `;`, `,` or an annotation and followed by `;`, `)`, `}`, `,` or an annotation
+    ==> `core::ops::Tr::m(& P, X)`.  Same reason and same justification as D11 / D11b (float/src/third_party/num_order.rs
+    `&self.significand % M127`).  Any other shape is left untouched."""
+    out = list(toks)
+    i = 0
+    while i < len(out):
+        t = out[i]
+        if _is(t, '&') and not t[2] \
+                and (i == 0 or out[i - 1][2] or (out[i - 1][0] == 'p' and out[i - 1][1] in ('=', '(', '{', '}', ';', ','))):
+            e1 = _place_path_end(out, i + 1)
+            if e1 is not None and e1 + 2 < len(out) and out[e1][0] == 'p' and out[e1][1] in _D11_OPS and not out[e1][2] \
+                    and out[e1 + 1][0] in ('id', 'lit', 'int', 'num') and not out[e1 + 1][2] and out[e1 + 1][1] not in ('mut', 'self'):
+                nxt = out[e1 + 2]
+                if nxt[2] or (nxt[0] == 'p' and nxt[1] in (';', ')', '}', ',')):
+                    op = out[e1][1]
+                    log.append('D11c `%s` -> core::ops::%s(..)' % (_txt(out[i:e1 + 2])[:80], _D11_OPS[op].replace(' ', '')))
+                    new = toks_of('core :: ops :: %s (' % _D11_OPS[op], False) + out[i:e1] + [T('p', ','), out[e1 + 1], T('p', ')')]
+                    out = out[:i] + new + out[e1 + 2:]
+                    i += len(new)
+                    continue
+        i += 1
+    return out
+
+
 # ---------------------------------------------------------------------------------------
 # D2: hoist a method out of its impl block (directive `#[hoist(Self = T, Output = U, ..)]` in the contract block)
 
@@ -908,8 +934,9 @@ def rule_d2(toks, log):
         log.append('D2 hoist: free function named `%s` (method `%s`)' % (newname[0][1], oldname))
     gen = amap.pop('Generics', None)
     if gen is not None:
-        if not (len(gen) >= 3 and _is(gen[0], '[') and _is(gen[-1], ']')) or _is(ts[f + 2], '<'):
-            raise Unsupported('D2: Generics entry shape / method has its own generics')
+        if not (len(gen) >= 3 and _is(gen[0], '[') and _is(gen[-1], ']')):
+            raise Unsupported('D2: Generics entry shape')
+        own = _is(ts[f + 2], '<')       # the method has a generic parameter list of its own: the impl generics go in front
         inner = gen[1:-1]
         for part in _split_top(inner):
             # a lifetime `'a`, or a const parameter of the impl header `const B : Word` (impl<const B: Word> Tr<X<B>> for Y)
@@ -919,8 +946,15 @@ def rule_d2(toks, log):
             tg = len(part) == 3 and part[0][0] == 'id' and _is(part[1], ':') and part[2][0] == 'id'
             if not (lt or cg or tg):
                 raise Unsupported('D2: Generics entry may only list lifetimes and `const N: T` parameters: `%s`' % _txt(gen))
-        ts = ts[:f + 2] + [T('p', '<')] + inner + [T('p', '>')] + ts[f + 2:]
-        log.append('D2 hoist: impl generics `%s` declared on the free function' % _txt(inner))
+        if own:
+            if any(len(part) == 1 and part[0][1].startswith("'") for part in _split_top(inner)) is False and \
+                    any(x[0] == 'id' and x[1].startswith("'") for x in ts[f + 3:f + 5]):
+                raise Unsupported('D2: method generics start with a lifetime, impl generics do not: cannot merge in order')
+            ts = ts[:f + 3] + inner + [T('p', ',')] + ts[f + 3:]
+            log.append('D2 hoist: impl generics `%s` merged in front of the method generics' % _txt(inner))
+        else:
+            ts = ts[:f + 2] + [T('p', '<')] + inner + [T('p', '>')] + ts[f + 2:]
+            log.append('D2 hoist: impl generics `%s` declared on the free function' % _txt(inner))
     j = f + 1
     gd = 0
     while True:
@@ -1217,6 +1251,76 @@ def rule_d14b(toks, log):
 
 
 # ---------------------------------------------------------------------------------------
+# D19: item statements inside a function body (`type X = ..;`, `const X: T = ..;`)
+
+def rule_d19(toks, log):
+    """Item statements at the top level of the function body -- `type IDENT = .. ;` and `const IDENT : TY = EXPR ;` (real tokens
+    only, at a statement boundary) -- are moved, unchanged and in order, in front of the function.  Verus (this build)
+    rejects "internal item statements".  A `type` alias and a `const` item do not capture anything from the function (Rust
+    forbids it), so their meaning is the same at module level; a clash with a module-level item of the same name is a
+    compile error of the generated file, never a silent change.  The canary copy drops the hoisted tokens again (they are
+    already present next to the original function): the log line `D19 hoisted_tokens=K` tells verus_run how many."""
+    # the body: first real `{` after the `fn` keyword
+    f = None
+    for k, t in enumerate(toks):
+        if _is(t, 'fn') and not t[2]:
+            f = k
+            break
+    if f is None:
+        return toks
+    b = None
+    for k in range(f, len(toks)):
+        if _is(toks[k], '{') and not toks[k][2]:
+            b = k
+            break
+        if _is(toks[k], ';') and not toks[k][2]:
+            return toks
+    if b is None:
+        return toks
+    e = _match_close(toks, b)
+    hoisted = []
+    body = []
+    i = b + 1
+    depth = 0
+    at_stmt = True
+    while i < e:
+        t = toks[i]
+        if depth == 0 and at_stmt and not t[2] and t[0] == 'id' and t[1] in ('type', 'const') \
+                and i + 2 < e and toks[i + 1][0] == 'id' and not toks[i + 1][2] \
+                and ((t[1] == 'type' and _is(toks[i + 2], '=')) or (t[1] == 'const' and _is(toks[i + 2], ':'))):
+            j = i
+            d = 0
+            while j < e and not (d == 0 and _is(toks[j], ';')):
+                if toks[j][0] == 'p' and toks[j][1] in rtok.OPEN:
+                    d += 1
+                elif toks[j][0] == 'p' and toks[j][1] in rtok.CLOSE:
+                    d -= 1
+                j += 1
+            item = toks[i:j + 1]
+            if j >= e or any(x[2] for x in item):
+                raise Unsupported('D19: item statement shape `%s`' % _txt(item)[:80])
+            log.append('D19 fn-local item `%s` moved in front of the function' % _txt(item)[:120])
+            hoisted += item
+            i = j + 1
+            at_stmt = True
+            continue
+        if t[0] == 'p' and t[1] in rtok.OPEN:
+            depth += 1
+        elif t[0] == 'p' and t[1] in rtok.CLOSE:
+            depth -= 1
+        if t[2]:
+            pass        # annotations do not change the statement boundary
+        else:
+            at_stmt = depth == 0 and t[0] == 'p' and t[1] in (';', '}')
+        body.append(t)
+        i += 1
+    if not hoisted:
+        return toks
+    log.append('D19 hoisted_tokens=%d' % len(hoisted))
+    return hoisted + toks[:b + 1] + body + toks[e:]
+
+
+# ---------------------------------------------------------------------------------------
 # D15: `X.iter().all(|w| *w == C)` on a word slice
 
 def rule_d15(toks, log):
@@ -1473,12 +1577,14 @@ def lower(toks, marks, opts=None):
     ts = rule_d2(ts, log)
     ts = rule_d5(ts, log)
     ts = rule_d6(ts, log)
+    ts = rule_d19(ts, log)
     ts = rule_d3(ts, log, drop=opts.get('drop_asserts', ()))
     ts = rule_d4a(ts, log)
     ts = rule_d10(ts, log)
     ts = rule_d10b(ts, log)
     ts = rule_d11(ts, log)
     ts = rule_d11b(ts, log)
+    ts = rule_d11c(ts, log)
     ts = rule_d12(ts, log)
     ts = rule_d13(ts, log)
     ts = rule_d14(ts, log)
